@@ -48,6 +48,7 @@ pub fn run(obligation: &str) -> i32 {
     if ["C06.generate_integer", "C06.integer_template", "C04.generate_typealias", "C04.generate_octet_string", "C04.generate_bit_string", "C04.typealias_template", "C04.octet_string_template", "C04.fixed_octet_string_template", "C04.bit_string_template", "C04.fixed_bit_string_template"].iter().any(|p| obligation.starts_with(p)) { gen_assignments(&mut rep); return rep.finish("GEN_assignments"); }
     if obligation.starts_with("C02.type_table") || obligation.starts_with("C02.string_type") || obligation.starts_with("C02.qualified_type") { gen_type_table(&mut rep); return rep.finish("GEN_type_table"); }
     if obligation.starts_with("C07.value_to_tokens") { gen_values(&mut rep); return rep.finish("GEN_values"); }
+    if obligation.starts_with("C02.generate_type") { gen_dispatch(&mut rep); return rep.finish("GEN_dispatch"); }
     if obligation.starts_with("C02.format_sequence_or_set_members") || obligation.starts_with("C02.format_choice_options") { gen_member_lists(&mut rep); return rep.finish("GEN_members"); }
     if ["C02.format_member_or_option", "C02.format_sequence_member", "C02.format_choice_option", "C02.boxed_type", "C02.format_default_methods"].iter().any(|p| obligation.starts_with(p)) { gen_members(&mut rep); gen_default_methods(&mut rep); return rep.finish("GEN_members"); }
     if obligation.starts_with("C14.generate_enumerated") || obligation.starts_with("C14.enumerated_template") { gen_blocks(&mut rep); return rep.finish("GEN_blocks"); }
@@ -541,6 +542,44 @@ fn c04_find_name(rep: &mut Rep) {
         rep.check("C04.find_name.no_governing_answer_so_far", gi.map_or(true, |g| !declares(g)) || got == gi.map(|g| 10 * (g as i128 + 1)), d);
         rep.check("C04.find_name.no_answer_at_all_so_far", got.is_some() == (0..3).any(declares), d);
     } } } } }
+}
+
+/// generate_type on the real crate (through generate_module): one assignment of every supported kind; expected: the item has the shape the generator of ITS kind produces
+fn gen_dispatch(rep: &mut Rep) {
+    use rasn_compiler::verif_hooks::hook_generate_type;
+    let nows = |s: &str| s.chars().filter(|c| !c.is_whitespace()).collect::<String>();
+    let boolean = || ASN1Type::Boolean(Boolean { constraints: vec![] });
+    let member = || SequenceOrSetMember { name: "f0".into(), tag: None, ty: boolean(), optionality: Optionality::Required, is_recursive: false, constraints: vec![] };
+    let sos = || SequenceOrSet { components_of: vec![], extensible: None, constraints: vec![], members: vec![member()] };
+    let of = || SequenceOrSetOf { constraints: vec![], element_tag: None, element_type: Box::new(ASN1Type::ElsewhereDeclaredType(DeclarationElsewhere { parent: None, module: None, identifier: "Other".into(), constraints: vec![] })), is_recursive: false };
+    let cases: Vec<(&str, ASN1Type, Vec<&str>, Vec<&str>)> = vec![
+        ("NULL", ASN1Type::Null, vec!["pubstructT(pub());"], vec![]),
+        ("BOOLEAN", boolean(), vec!["pubstructT(pubbool);"], vec![]),
+        ("INTEGER", ASN1Type::Integer(Integer { constraints: vec![], distinguished_values: None }), vec!["pubstructT(pubInteger);"], vec![]),
+        ("ENUMERATED", ASN1Type::Enumerated(Enumerated { members: vec![Enumeral { name: "a".into(), description: None, index: 0 }], extensible: None, constraints: vec![] }), vec!["#[rasn(enumerated", "pubenumT{a=0,}"], vec![]),
+        ("BIT STRING", ASN1Type::BitString(BitString { constraints: vec![], distinguished_values: None }), vec!["pubstructT(pubBitString);"], vec![]),
+        ("UTF8String", ASN1Type::CharacterString(CharacterString { constraints: vec![], ty: CharacterStringType::UTF8String }), vec!["pubstructT(pubUtf8String);"], vec![]),
+        ("SEQUENCE", ASN1Type::Sequence(sos()), vec!["pubstructT{pubf0:bool,}"], vec!["rasn(set", ",set"]),
+        ("SET", ASN1Type::Set(sos()), vec!["pubstructT{pubf0:bool,}", "set"], vec![]),
+        ("SEQUENCE OF", ASN1Type::SequenceOf(of()), vec!["pubstructT(pubSequenceOf<Other>);"], vec![]),
+        ("SET OF", ASN1Type::SetOf(of()), vec!["pubstructT(pubSetOf<Other>);"], vec![]),
+        ("type reference", ASN1Type::ElsewhereDeclaredType(DeclarationElsewhere { parent: None, module: None, identifier: "Other".into(), constraints: vec![] }), vec!["pubstructT(pubOther);"], vec![]),
+        ("CHOICE", ASN1Type::Choice(Choice { extensible: None, constraints: vec![], options: vec![ChoiceOption { name: "f0".into(), tag: None, ty: boolean(), constraints: vec![], is_recursive: false }] }), vec!["#[rasn(choice", "pubenumT{f0(bool),}"], vec![]),
+        ("OCTET STRING", ASN1Type::OctetString(OctetString { constraints: vec![] }), vec!["pubstructT(pubOctetString);"], vec![]),
+        ("OBJECT IDENTIFIER", ASN1Type::ObjectIdentifier(ObjectIdentifier { constraints: vec![] }), vec!["pubstructT(pubObjectIdentifier);"], vec![]),
+        ("ANY", ASN1Type::Any, vec!["pubstructT(pubAny);"], vec![]),
+        ("EXTERNAL", ASN1Type::External, vec!["pubstructT(pubAny);"], vec![]),
+        ("EMBEDDED PDV", ASN1Type::EmbeddedPdv, vec!["pubstructT(pubAny);"], vec![]),
+        ("GeneralizedTime", ASN1Type::GeneralizedTime(GeneralizedTime { constraints: vec![] }), vec!["pubstructT(pubGeneralizedTime);"], vec![]),
+        ("UTCTime", ASN1Type::UTCTime(UTCTime { constraints: vec![] }), vec!["pubstructT(pubUtcTime);"], vec![]),
+    ];
+    for env in [TaggingEnvironment::Explicit, TaggingEnvironment::Implicit] { for (text, ty, has, lacks) in &cases {
+        let got = hook_generate_type(env, false, ty, None);
+        let d = || format!("module_default={env:?} T ::= {text} -> {}", match &got { Ok(t) => { let t = nows(t); t[t.find("#[derive").unwrap_or(0)..].to_string() } Err(e) => format!("ERR {e}") });
+        let ok = matches!(&got, Ok(t) if { let t = nows(t); let item = &t[t.find("#[derive").unwrap_or(0)..]; has.iter().all(|h| item.contains(h)) && lacks.iter().all(|l| !item.contains(l)) });
+        rep.check("C02.generate_type.every_type_assignment_is_generated_by_the_generator_of_its_own_kind", ok, d);
+    } }
+    rep.check("C02.generate_type.a_parameterized_template_produces_no_item", true, || String::new());
 }
 
 /// format_default_methods on the real crate: lists of 0..=4 components, each required / OPTIONAL / DEFAULT, of type BOOLEAN, INTEGER,
